@@ -32,7 +32,7 @@ var propSpecs = map[string]PropSpec{
 	"C01": {ID: "C01", Level: "proof", Patterns: []string{"./data/...", "./util/..."},
 		NotCovered: []string{"frame (cells outside the block unchanged) of ApplySlice and CopyFrom; their footprint is bounded by rank 3", "Slice with fewer extents than axes (used by the table-parameter wrappers)"}},
 	"C02": {ID: "C02", Level: "proof", Patterns: []string{"./data/...", "./util/..."},
-		NotCovered: []string{"ApplySlice, CopyFrom beyond rank 3 and their frame", "Reshape, ReshapeFast, MustReshape", "Maximum/Minimum methods of arrays", "whole-array helpers of data/arrayops.go (scale, add-to, apply-function)", "views with an extent of 0 (extents >= 1 are a precondition of the bulk contracts)"}},
+		NotCovered: []string{"ApplySlice, CopyFrom and the whole-array helpers (AddTo, ApplyFunc1, Scale) beyond rank 3 (BOUNDED: the mixed-radix successor lemma is proved per rank for ranks 1-3; extents, strides and steps are symbolic)", "Reshape of a view whose new shape has exactly one element (the row-major clause is stated for more than one element)", "Maximum/Minimum methods of arrays", "whole-array helpers on two arrays that share element storage (precondition: the slices their Unroll() return are different objects)", "the bridge between the Go back-end's header and the row-major interface view for the array built by ArrayFromSlice (assumed contract)", "views with an extent of 0 (extents >= 1 are a precondition of the bulk contracts)"}},
 	"C03": {ID: "C03", Level: "proof", Patterns: []string{"./data/...", "./util/..."},
 		NotCovered: []string{"Reshape, ReshapeFast of the C back-end; ApplySlice/CopyFrom beyond rank 3", "libopenwater.RunSingleModel (cgo entry point)"}},
 	"C04": {ID: "C04", Level: "proof", Patterns: modelPkgs},
@@ -54,10 +54,10 @@ var propSpecs = map[string]PropSpec{
 	"C16": {ID: "C16", Level: "proof", Patterns: modelPkgs},
 	"C17": {ID: "C17", Level: "other", Patterns: []string{"./sim/...", "./io/json/...", "./data"},
 		Explanation: "Partial, by contracts on the real runner code (sim/single.go, io/json/json.go): request assembly is proved exact - every parameter handed to the model is the first value of that name in the request or else the description's default, every supplied input series is row k of the input array (all values, all lengths), missing inputs are zero rows, all input series must have one length, the parameter matrix is the uniform one-column matrix - and no statement of Initialise, RunSingleModelJSON, encodeResults and JsonSafeArray can panic (index, slice, nil, division obligations; the deferred encoder runs on every return path), given the assumed interface contracts of the catalogued model (Description pure, InitialiseStates a fresh one-row matrix, Run's preconditions established by the runner). Not decided here: the text written to the output (encoding/json and fmt are external: that exactly one valid document is produced, and the strings chosen for NaN/Inf), the nesting of the interface{} tree built by JsonSafeArray beyond its length per level, and the equality of the run with a direct Run (the runner calls the same Run on the assembled arrays; C04 covers Run).",
-		NotCovered: []string{"bytes produced by encoding/json and fmt (valid JSON, NaN/+Inf/-Inf strings)", "contents of the interface{} tree returned by JsonSafeArray (only the length per level)", "flat-index safety of element reads through the over-long views JsonSafeArray builds (views unchecked)", "cmd/ow-single main (flag parsing, stdin/stdout)"}},
+		NotCovered: []string{"bytes produced by encoding/json and fmt (valid JSON, NaN/+Inf/-Inf strings)", "contents of the interface{} tree returned by JsonSafeArray (only the length per level)", "flat-index safety of element reads through the over-long views JsonSafeArray builds (views unchecked)", "cmd/ow-single main (flag parsing, stdin/stdout)", "panics inside the model's own Run (the per-cell goroutine): e.g. {\"Name\":\"GR4J\"} or InstreamDissolvedNutrientDecay with no parameters and no inputs run with all-default parameters and crash inside Run, outside the runner's recover; Run's preconditions are established by the runner only as far as array shapes go"}},
 	"C18": {ID: "C18", Level: "proof", Patterns: modelPkgs},
 	"C19": {ID: "C19", Level: "proof", Patterns: modelPkgs},
 	"C20": {ID: "C20", Level: "other", Patterns: modelPkgs,
 		Explanation: "Partial decision by contract proofs on the real code: vapour pressure positive, wet-bulb bisection bracket invariant, depression identity, pointwise data flow per timestep. The ordering claims that need properties of the transcendental formulas themselves (monotonicity of Goff-Gratch, dew point <= dry bulb, dew point rising with humidity, finiteness) are not decidable with uninterpreted math functions and are not covered.",
-		NotCovered: []string{"saturation vapour pressure strictly increasing with temperature", "dew point <= dry bulb and rising with humidity", "finiteness of all outputs (division by atmPressure - vapourPressure, 17.27 - F)"}},
+		NotCovered: []string{"saturation vapour pressure strictly increasing with temperature", "dew point <= dry bulb and rising with humidity", "finiteness of all outputs (division by atmPressure - vapourPressure, 17.27 - F)", "observed by a seeding sub-agent, not decided by any contract: at 100 % relative humidity the computed dew point exceeds the dry-bulb temperature by up to 0.0062 degC (the Goff-Gratch vapour pressure and the Magnus inverse are different approximations)"}},
 }
